@@ -8,6 +8,7 @@ package main
 import (
 	"bufio"
 	"bytes"
+	"encoding/gob"
 	"encoding/json"
 	"fmt"
 	"math/rand"
@@ -87,6 +88,12 @@ func hostileBytes(n J, b *bytes.Buffer) {
 			switch n["style"] {
 			case "typed":
 				fmt.Fprintf(b, `"id":"https://example.com/c/%d","type":"Note",`, i)
+			case "activity":
+				fmt.Fprintf(b, `"id":"https://example.com/c/%d","type":"Create","actor":"https://example.com/a",`, i)
+			case "person":
+				fmt.Fprintf(b, `"id":"https://example.com/c/%d","type":"Person","inbox":"https://example.com/c/%d/inbox",`, i, i)
+			case "collection":
+				fmt.Fprintf(b, `"id":"https://example.com/c/%d","type":"OrderedCollection","totalItems":1,`, i)
 			case "href":
 				fmt.Fprintf(b, `"href":"https://example.com/h/%d",`, i)
 			case "link":
@@ -373,6 +380,18 @@ func c04Cases(docsPath string, tier string) ([]c04Case, error) {
 			}
 			cases = append(cases, c04Case{id: fmt.Sprintf("gob:%d:flip:%d", i, f), kinds: "gob", data: cp, g: gt})
 		}
+	}
+	// gob: one-property objects nested thousands of levels deep (every level is a byte string inside the map of the level above)
+	for _, d := range []int{1000, 4000} {
+		data := []byte("http://example.com/x")
+		for i := 0; i < d; i++ {
+			bb := bytes.Buffer{}
+			if err := gob.NewEncoder(&bb).Encode(map[string][]byte{"context": data}); err != nil {
+				return nil, err
+			}
+			data = bb.Bytes()
+		}
+		cases = append(cases, c04Case{id: fmt.Sprintf("gob:nest:%d", d), kinds: "gob", data: data, g: "Object"})
 	}
 	return cases, nil
 }
